@@ -214,6 +214,7 @@ void h_b_basic(void)
     int len, pos, k;
     for (len = 0; len <= VF_MAXLEN; len++) {
         struct cstl_slist l; int ref[VF_POOL]; int n;
+        VF_SCEN(len > 0);
         vf_build(&l, ref, len, 0); n = len;
         vf_check_list(&l, ref, n, "build");
         /* push_front / push_back */
@@ -300,6 +301,7 @@ void h_b_pair(void)
         for (lb = 0; lb <= 3; lb++) {
             struct cstl_slist a, b; int ra[VF_POOL], rb[VF_POOL];
             (void)k;
+            VF_SCEN(la > 0 && lb > 0);
 #if VF_PAIR_OP & 1
             vf_build(&a, ra, la, 0); vf_build(&b, rb, lb, 6);
             cstl_slist_concat(&a, &b);
@@ -342,11 +344,12 @@ void h_b_visit(void)
     int la, k, stop;
     for (la = 0; la <= VF_MAXLEN; la++) {
         struct cstl_slist a; int ra[VF_POOL];
+        VF_SCEN(la > 0);
         /* clear */
         vf_build(&a, ra, la, 0);
         for (k = 0; k < VF_POOL; k++) vf_member[k] = 0;
         for (k = 0; k < la; k++) vf_member[ra[k]] = 1;
-        vf_trap.poisoned = 1; vf_trap.n.n = &vf_trap.n;
+        vf_trap.poisoned = 1; vf_trap.n.n = NULL;
         vf_clr_n = 0;
         cstl_slist_clear(&a, vf_clr);
         VF_ASSERT(vf_clr_n == la, "clear: the callback runs exactly once per element");
@@ -393,6 +396,7 @@ void h_b_sort(void)
         for (k = 0; k < len; k++) ncodes *= 3;
         for (code = 0; code < ncodes; code++) {
             struct cstl_slist l; int ref[VF_POOL], c = code, n = 0;
+            VF_SCEN(len > 1);
             vf_build(&l, ref, len, 0);
             for (k = 0; k < len; k++) { vf_pool[k].key = c % 3; c /= 3; }
             cstl_slist_sort(&l, vf_cmp_key, NULL);
@@ -416,6 +420,7 @@ void h_b_pop_empty(void)
     int len, k;
     for (len = 0; len <= 2; len++) {
         struct cstl_slist l; int ref[VF_POOL]; void * e;
+        VF_SCEN(1);
         vf_build(&l, ref, len, 0);
         for (k = 0; k < len; k++) {
             e = cstl_slist_pop_front(&l);
